@@ -231,3 +231,7 @@ def run_for_native(vc):
 
 from contracts.mcmc_gibbs import gibbs_take_step
 contract("C15", "gibbs_take_step", native=False)(gibbs_take_step)
+
+
+from contracts.mcmc_pca import pca_take_step
+contract("C15", "pca_take_step", native=False)(pca_take_step)
